@@ -131,9 +131,9 @@ Proof.
   inversion He; subst. inversion H; subst. reflexivity.
 Qed.
 
-Lemma emitted_covered : forall strE stmE to_os io e,
+Lemma keyed_covered : forall strE stmE to_os io e,
   (forall o, io <> ILazy o) ->
-  write_iobj strE stmE to_os io = Ok e -> covered strE stmE to_os io e.
+  write_keyed strE stmE to_os io = Ok e -> covered strE stmE to_os io e.
 Proof.
   intros strE stmE to_os io e Hnl H. destruct io as [o|d filters raw|o]; simpl in H.
   - assert (G : forall e, match encryptDeep strE o with Ok o' => Ok (EmTop o') | Err => Err end = Ok e ->
@@ -159,19 +159,41 @@ Proof.
   - exfalso. apply (Hnl o). reflexivity.
 Qed.
 
+(* writeIndirectObject with a key set: every indirect object, undecoded object-stream members included
+   (they are decoded first: decoded io), is covered *)
+Lemma emitted_covered : forall strE stmE to_os io e,
+  write_iobj true strE stmE to_os io = Ok e -> covered strE stmE to_os (decoded io) e.
+Proof.
+  intros strE stmE to_os io e H. unfold write_iobj in H. unfold decoded.
+  apply keyed_covered; [|exact H]. intros o Heq. destruct io; simpl in Heq; discriminate.
+Qed.
+
 (* every stream except xref streams and streams whose only filter is Crypt has its data enciphered;
    in particular XMP metadata (the writer has no EncryptMetadata=false mode) and object streams *)
 Lemma stream_data_enciphered : forall strE stmE to_os d filters raw d' raw',
-  write_iobj strE stmE to_os (IStream d filters raw) = Ok (EmTopStream d' raw') ->
+  write_iobj true strE stmE to_os (IStream d filters raw) = Ok (EmTopStream d' raw') ->
   type_is nXRef d = false -> single_crypt filters = false -> stmE raw = Ok raw'.
 Proof.
   intros strE stmE to_os d filters raw d' raw' H Hx Hc.
-  assert (Hnl : forall o, IStream d filters raw <> ILazy o) by (intros o Heq; discriminate Heq).
-  pose proof (emitted_covered strE stmE to_os _ _ Hnl H) as Hcov.
+  pose proof (emitted_covered strE stmE to_os _ _ H) as Hcov.
   simpl in Hcov. destruct Hcov as (d0 & f0 & r0 & Heq & _ & Hraw). inversion Heq; subst.
   rewrite Hx, Hc in Hraw. exact Hraw.
 Qed.
 
-(* the hole: an undecoded object-stream member goes out as it is, whatever the ciphers are *)
-Lemma lazy_in_clear : forall strE stmE to_os o, write_iobj strE stmE to_os (ILazy o) = Ok (EmTop o).
+(* an undecoded member with a key set: emitted as the encryption of the decoded object (or as a member of
+   an object stream); without a key the fast path copies it verbatim *)
+Lemma lazy_enciphered : forall strE stmE o e,
+  write_iobj true strE stmE false (ILazy o) = Ok e ->
+  exists o', e = EmTop o' /\ encryptDeep strE o = Ok o'.
+Proof.
+  intros strE stmE o e H. unfold write_iobj in H. simpl in H.
+  destruct o; simpl in H; try (inversion H; subst; eexists; split; reflexivity);
+    match type of H with
+    | match ?x with _ => _ end = _ => destruct x as [o'|] eqn:He; [|discriminate]; inversion H; subst;
+        exists o'; split; [reflexivity | exact He]
+    end.
+Qed.
+
+Lemma lazy_unkeyed_verbatim : forall strE stmE to_os o,
+  write_iobj false strE stmE to_os (ILazy o) = Ok (EmTop o).
 Proof. reflexivity. Qed.
